@@ -54,8 +54,8 @@ def _load_multiple_spike_arrays(*spike_array_l, spike_order=None):
 
 def _load_multiple_files(fn, subdirs):
     """Load the same filename in the different subdirectories."""
-    # Warning: squeeze may fail in degenerate cases.
-    return [np.load(str(subdir / fn)).squeeze() for subdir in subdirs]
+    # NOTE: a file with a single item is squeezed to a 0-d array, we restore the first dimension.
+    return [np.atleast_1d(np.load(str(subdir / fn)).squeeze()) for subdir in subdirs]
 
 
 #------------------------------------------------------------------------------
